@@ -97,7 +97,7 @@ class NetSim(BaseEngine):
                 'sleep_time': pick(rng, (1e-4, 1e-3, 1e-2, 0.5)),
                 'start_time': pick(rng, (0.0, 100.0, 1.7e9)),
                 'host': pick(rng, HOSTS), 'port': pick(rng, PORTS + (rng.randint(1, 65535),)),
-                'epipe_after': rng.randrange(2)}
+                'epipe_after': rng.randrange(2), 'first_fd': pick(rng, (10, 10, 10, 3, 0))}
         if scn == 1:
             types = pick(rng, (model.ALL_TYPES, model.NON_RT_TYPES, ('sysex', 'note_on', 'clock'),
                                model.CHANNEL_TYPES))
@@ -146,7 +146,7 @@ class NetSim(BaseEngine):
                          'closer': pick(rng, ('client', 'server_conn')),
                          'latency': pick(rng, (0.0, 0.0005, 0.01, 0.2)),
                          'consumer': pick(rng, CONSUMERS), 'poll_advance': pick(rng, (0.0005, 0.004, 0.3)),
-                         'reader_before_close': rng.random() < 0.5})
+                         'reader_before_close': rng.random() < 0.5, 'late_sends': pick(rng, (0, 0, 1, 2, 3))})
         else:
             clients = []
             for c in range(rng.randint(1, 3)):
@@ -196,7 +196,7 @@ class NetSim(BaseEngine):
 
     def _world(self, plan, log):
         clock = Clock(plan['start_time'], plan['sleep_time'])
-        net = simnet.SimNet(clock, log)
+        net = simnet.SimNet(clock, log, first_fd=plan.get('first_fd', 10))
         mports.time = TimeShim(clock)
         mports.random = RandomShim(plan.get('perms', []))
         msock.socket = simnet.SocketShim(net)
@@ -572,10 +572,31 @@ class NetSim(BaseEngine):
             raise Violation('close-never-returned', 'SocketPort.close() did not return')
         log.ev('closed', plan['closer'])
         stats['fault:orderly_close'] += 1
+        send_failed = False
+        if plan.get('late_sends') and plan['consumer'] == 'iter':
+            # the side that was left behind does not know yet and keeps sending: the usual way a two-way
+            # application meets the hang-up. Each send may work or fail with OSError / ValueError.
+            clock.now += plan['latency'] + 0.001
+            net.pump()
+            for j in range(plan['late_sends']):
+                r = self._guard('late-send', other.send, make_msg('note_on', 5, j, 1), expect=(OSError, ValueError))
+                log.ev('late-send', r[0], type(r[1]).__name__ if r[0] == 'raised' else None)
+                if r[0] == 'never-returned':
+                    raise Violation('send-never-returned', 'send() to a peer that has hung up did not return')
+                if r[0] == 'raised':
+                    send_failed = True
+                    stats['probe:send_to_dead_peer_failed'] += 1
+            stats['fault:send_after_peer_hung_up'] += 1
         got, ended = self._consume(other, plan['consumer'], clock, net, plan, log, 'other')
         got = pre + got
         log.ev('ended', ended, len(got), bool(other.closed))
-        if len(got) != len(to_other) or not all(_eq(a, b) for a, b in zip(got, to_other)):
+        if send_failed:
+            # the port may have closed itself on the failed send, before reading what was still in the socket:
+            # what it does hand out must still be an in-order prefix of what arrived
+            if len(got) > len(to_other) or not all(_eq(a, b) for a, b in zip(got, to_other)):
+                raise Violation('peer-close:wrong-messages', f'the peer sent {to_other!r} before closing; received '
+                                                             f'{got!r} (after a failed send to the dead peer)')
+        elif len(got) != len(to_other) or not all(_eq(a, b) for a, b in zip(got, to_other)):
             raise Violation('peer-close:wrong-messages', f'the peer sent {to_other!r} before closing; received {got!r}')
         if ended == 'never-returned':
             raise Violation(f'peer-close:not-seen@{plan["consumer"]}',
